@@ -155,12 +155,57 @@ def build_ev(s, shift=0):
     )
 
 
+def scribble_on_table(net):
+    """A caller post-processes the table constraints_as_df() handed out - flips signs, blanks it,
+    writes through its numpy view.  The table is the caller's; whatever pandas / numpy refuse
+    (read-only buffers) is refused, nothing here touches the network's own attributes."""
+    with warnings.catch_warnings():
+        warnings.simplefilter("ignore")
+        try:
+            tbl = net.constraints_as_df()
+        except Exception:  # a network without constraints has no table
+            return False
+        if tbl is None:
+            return False
+        for edit in (
+            lambda: tbl.__setitem__(tbl < 0, 7.0),
+            lambda: tbl.where(tbl >= 0, -tbl, inplace=True),
+            lambda: tbl.iloc.__setitem__((slice(None), slice(None)), 0.0),
+            lambda: tbl.values.__setitem__(Ellipsis, 0.0),
+            lambda: np.asarray(tbl).__setitem__(Ellipsis, 0.0),
+            lambda: tbl.to_numpy().__setitem__(Ellipsis, 0.0),
+        ):
+            try:
+                edit()
+            except (ValueError, TypeError, KeyError, IndexError):
+                pass
+    return True
+
+
+class TaggedPluginEvent(PluginEvent):
+    """A user's own extension of a stock event class: it carries a tag and is otherwise the
+    event it derives from (same event_type, same precedence, same constructor)."""
+
+    tag = "fleet"
+
+
+class TaggedUnplugEvent(UnplugEvent):
+    tag = "fleet"
+
+
+class TaggedRecomputeEvent(RecomputeEvent):
+    tag = "fleet"
+
+
 def build_events(spec, evs, shift=0, order=None):
-    events = [PluginEvent(evs[s["id"]].arrival, evs[s["id"]]) for s in spec["sessions"]]
-    events += [RecomputeEvent(t + shift) for t in spec.get("recomputes", [])]
+    sub = bool(spec.get("subclassed"))
+    # with "subclassed", every other plug-in and all stand-alone recompute / unplug events are
+    # instances of user-defined subclasses of the stock event classes
+    events = [(TaggedPluginEvent if sub and k % 2 == 0 else PluginEvent)(evs[s["id"]].arrival, evs[s["id"]]) for k, s in enumerate(spec["sessions"])]
+    events += [(TaggedRecomputeEvent if sub else RecomputeEvent)(t + shift) for t in spec.get("recomputes", [])]
     # explicit departures ahead of the session's own departure (the simulator's own unplug event
     # at ev.departure then finds the EV gone)
-    events += [UnplugEvent(u["t"] + shift, evs[u["session"]]) for u in spec.get("early_unplugs", [])]
+    events += [(TaggedUnplugEvent if sub else UnplugEvent)(u["t"] + shift, evs[u["session"]]) for u in spec.get("early_unplugs", [])]
     # plain Event objects (no type): they are popped and logged in their period but ask for nothing
     events += [Event(t + shift) for t in spec.get("inert", [])]
     order = spec.get("event_order") if order is None else order
@@ -795,6 +840,7 @@ def scenarios(
         "verbose": extras and draw(st.integers(0, 5)) == 0,
         "pre_unplug": draw(st.sampled_from([0, 0, 0, 1, 3])) if extras else 0,
         "late_fill": extras and draw(st.integers(0, 4)) == 0,
+        "subclassed": extras and draw(st.integers(0, 5)) == 0,
         "stations": stations,
         "constraints": cons,
         "sessions": sessions,
@@ -863,4 +909,6 @@ def scenario_labels(spec):
         labels.add("events_added_singly_and_in_bulk")
     if spec.get("late_fill"):
         labels.add("queue_filled_after_the_simulator_was_built")
+    if spec.get("subclassed"):
+        labels.add("user_defined_event_subclasses")
     return labels
